@@ -193,7 +193,11 @@ def replay_once(exe, spec, path, timeout=60, want_kind=False):
         if spec.get('kind') == 'script':
             cmd = [spec.get('interp', 'python3'), exe, 'replay', path, '--repo', REPO]
         else:
-            cmd = [exe, 'replay', path, '--watchdog', '1']
+            # cases of the long-running custom stages (a 2^32-byte haul, a 131 075-node chain) legitimately take minutes
+            slow = any(l.startswith(('param haul=', 'param deep=', 'param longlist=')) for l in open(path))
+            cmd = [exe, 'replay', path, '--watchdog', '0' if slow else '1']
+            if slow:
+                timeout = max(timeout, 900)
         r = subprocess.run(cmd, stdout=subprocess.PIPE, stderr=subprocess.STDOUT, text=True, timeout=timeout,
                            env=run_env(spec), errors='replace')
         kind = 'pass' if r.returncode == 0 else 'fail' if r.returncode == 1 else 'hang' if r.returncode == 4 else \
@@ -644,7 +648,7 @@ def _run_property(pid, tier, prop, seed, workdir, evid_path, t0):
             if classes.get(k, 0) < mn:
                 starved.append('%s=%d (<%d)' % (k, classes.get(k, 0), mn))
     ev = dict(property_id=pid, tier=tier, seed=seed, level='exploration',
-              coverage=dict(evaluations=total_eval, distinct_nontrivial=total_distinct, rule=prop['rule'],
+              coverage=dict(evaluations=total_eval, distinct_nontrivial=total_distinct, rule=prop['rule'] + (' ' + prop['rule_more'] if prop.get('rule_more') else ''),
                             samples=samples, classes=classes, counters=sums, exhaustive=bool(any(e['exhaustive'] for e in engines)),
                             exhaustive_scope=[e['what'] or e['harness'] for e in engines if e['exhaustive']],
                             engines=engines, nontrivial_total=total_nt,
